@@ -36,6 +36,7 @@ RULE = (
     "+ terminal core|orm_exec|returning|orm entity/column_property/deferred/aliased-subquery/refresh). "
     "once: counting envelope TypeDecorator over String/Integer/JSON/DateTime/PickleType impl in the same contexts + bind-side probes (WHERE ==, IN, literal()). "
     "procs: dialect-impl processors of PG/MySQL/MSSQL fed through a driver model. "
+    "lastrowid: 1-6 single-row INSERTs (pk generated / values() / execution parameter / explicit None / ORM) into a table whose autoincrement integer PK (single or composite) is a counting TypeDecorator, read through inserted_primary_key(_rows). "
     "Non-trivial: at least one value is a boundary/special value of its type, or the read context nests >=2 wrappers, or (once/procs) every case; "
     "distinct = canonical JSON of the case"
 )
@@ -1267,9 +1268,177 @@ def check_procs(case, ctx):
     raise AssertionError(k)
 
 
+# ---------------------------------------------------------------------------------------
+# sub-check 4: CursorResult.inserted_primary_key on the cursor.lastrowid path
+# ---------------------------------------------------------------------------------------
+# (values(id=None) is not generated: on the unchanged tree it reports (None,) although the database generates a key; undocumented either way)
+PK_MODES = ["gen", "values", "param", "none", "orm_gen", "orm_explicit", "param", "values"]
+
+lastrowid_cases = st.fixed_dictionaries(
+    {
+        "ops": st.lists(st.tuples(st.sampled_from(PK_MODES), st.integers(-50, 5000)).map(list), min_size=1, max_size=6),
+        "composite": st.booleans(),
+        "table_implicit_returning": st.sampled_from([True, False, False]),
+        "envelope": st.sampled_from(["offset", "prefix"]),
+    }
+)
+
+
+def check_lastrowid(case, ctx):
+    """single-row INSERTs whose new primary key is fetched with cursor.lastrowid (SQLite's default for one row; also forced with
+    Table(implicit_returning=False)); the autoincrement integer PK is typed with a counting non-idempotent TypeDecorator.
+    inserted_primary_key / inserted_primary_key_rows: result processing is applied exactly once to a database generated
+    lastrowid and never to a value the caller supplied (values(), execution parameter, ORM attribute)"""
+    import sqlalchemy as sa
+    from sqlalchemy.orm import Session, registry
+    from vf.sautil import mem_engine
+
+    counters = {"bind": 0, "result": 0}
+    prefix = case["envelope"] == "prefix"
+
+    class PK(sa.TypeDecorator):
+        impl = sa.Integer
+        cache_ok = True
+
+        def process_bind_param(self, value, dialect):
+            if value is None:
+                return None
+            counters["bind"] += 1
+            return int(value[4:]) if prefix else value - 1000
+
+        def process_result_value(self, value, dialect):
+            if value is None:
+                return None
+            counters["result"] += 1
+            if prefix:
+                return ("UNDERFLOW", value) if not isinstance(value, int) else "INT_%d" % value
+            return value + 1000
+
+    def py(raw):  # python-domain value of a raw database integer
+        return "INT_%d" % raw if prefix else raw + 1000
+
+    composite = case["composite"]
+    md = sa.MetaData()
+    kw = {} if case["table_implicit_returning"] else {"implicit_returning": False}
+    if composite:
+        # only `id` is the autoincrement column; SQLite cannot generate it in a composite key, so it is always supplied there
+        t = sa.Table("tpk", md, sa.Column("id", PK, primary_key=True, autoincrement=True), sa.Column("k", PK, primary_key=True, autoincrement=False), sa.Column("data", sa.String(20)), **kw)
+    else:
+        t = sa.Table("tpk", md, sa.Column("id", PK, primary_key=True), sa.Column("data", sa.String(20)), **kw)
+    eng = mem_engine()
+    reg = registry()
+
+    class Thing:
+        pass
+
+    reg.map_imperatively(Thing, t)
+    modes = []
+    fail = None
+    try:
+        if composite:
+            # SQLite's DDL compiler rejects autoincrement=True inside a composite key; the table is created by hand while the
+            # Table object keeps `id` as its autoincrement column (what a reflected / other-backend table looks like)
+            with eng.begin() as conn:
+                conn.exec_driver_sql("CREATE TABLE tpk (id INTEGER NOT NULL, k INTEGER NOT NULL, data VARCHAR(20), PRIMARY KEY (id, k))")
+        else:
+            md.create_all(eng)
+        used_raw = set()
+        max_raw = 0
+        expected_ids = []
+        for step, (mode, x) in enumerate(case["ops"]):
+            if composite and mode in ("gen", "none", "values_none", "orm_gen"):
+                mode = {"gen": "values", "none": "param", "values_none": "values", "orm_gen": "orm_explicit"}[mode]
+            raw = abs(x) + 1
+            while raw in used_raw:
+                raw += 1
+            supplied = mode in ("values", "param", "orm_explicit")
+            if not supplied:
+                raw = max_raw + 1  # SQLite rowid of an INTEGER PRIMARY KEY without AUTOINCREMENT: max(rowid) + 1
+            used_raw.add(raw)
+            max_raw = max(max_raw, raw)
+            X = py(raw)
+            kval = py(7 + step)
+            modes.append(("composite-" if composite else "") + mode)
+            b0, r0 = counters["bind"], counters["result"]
+            if mode.startswith("orm"):
+                with Session(eng) as s:
+                    o = Thing()
+                    o.data = f"d{step}"
+                    if supplied:
+                        o.id = X
+                    if composite:
+                        o.k = kval
+                    s.add(o)
+                    s.flush()
+                    got_pk = (o.id, o.k) if composite else (o.id,)
+                    got_rows = None
+                    s.commit()
+            else:
+                with eng.begin() as conn:
+                    if mode == "gen":
+                        r = conn.execute(t.insert().values(data=f"d{step}"))
+                    elif mode == "values":
+                        vals = {"id": X, "data": f"d{step}"}
+                        if composite:
+                            vals["k"] = kval
+                        r = conn.execute(t.insert().values(**vals))
+                    elif mode == "param":
+                        params = {"id": X, "data": f"d{step}"}
+                        if composite:
+                            params["k"] = kval
+                        r = conn.execute(t.insert(), params)
+                    elif mode == "none":
+                        r = conn.execute(t.insert(), {"id": None, "data": f"d{step}"})
+                    else:
+                        r = conn.execute(t.insert().values(id=None, data=f"d{step}"))
+                    got_pk = tuple(r.inserted_primary_key)
+                    got_rows = [tuple(x_) for x_ in r.inserted_primary_key_rows]
+            want_pk = (X, kval) if composite else (X,)
+            expected_ids.append(X)
+            binds, results = counters["bind"] - b0, counters["result"] - r0
+            want_binds = (2 if composite else 1) if supplied else 0
+            # the lastrowid processor may run on the raw lastrowid even when the caller's value is then preferred (harmless);
+            # what counts is the reported value; for a generated key it must have run exactly once
+            if got_pk != want_pk and fail is None:
+                how = "caller-supplied" if supplied else "generated"
+                fail = Violation(
+                    f"C09/lastrowid/{how}-pk-{'reprocessed' if supplied else 'wrong'}",
+                    f"step {step} mode={mode} composite={composite}: inserted_primary_key {got_pk!r}, expected {want_pk!r} (raw {raw}); processors ran bind={binds} result={results}",
+                    observed=repr(got_pk),
+                    expected=repr(want_pk),
+                )
+            elif got_rows is not None and got_rows != [want_pk] and fail is None:
+                fail = Violation("C09/lastrowid/inserted_primary_key_rows", f"step {step} mode={mode}: inserted_primary_key_rows {got_rows!r}, expected {[want_pk]!r}", observed=repr(got_rows), expected=repr([want_pk]))
+            elif binds != want_binds and not mode.startswith("orm") and fail is None:
+                fail = Violation("C09/lastrowid/bind-count", f"step {step} mode={mode}: bind processor ran {binds}x, expected {want_binds}", observed=binds, expected=want_binds)
+            elif not supplied and results != 1 and not mode.startswith("orm") and fail is None:
+                fail = Violation("C09/lastrowid/result-count", f"step {step} mode={mode}: result processor ran {results}x on the generated lastrowid, expected 1", observed=results, expected=1)
+            if fail is not None:
+                break
+            # the reported key must locate the row
+            with eng.connect() as conn:
+                found = conn.execute(sa.select(t.c.data).where(t.c.id == got_pk[0])).scalar()
+            if found != f"d{step}":
+                fail = Violation("C09/lastrowid/reported-pk-does-not-locate-row", f"step {step} mode={mode}: row looked up by reported pk {got_pk!r} -> {found!r}", observed=repr(found), expected=f"d{step}")
+                break
+        if fail is None:
+            with eng.connect() as conn:
+                back = [r_[0] for r_ in conn.execute(sa.select(t.c.id).order_by(t.c.data))]
+                raw_back = [r_[0] for r_ in conn.exec_driver_sql("select id from tpk order by data")]
+            if back != expected_ids:
+                fail = Violation("C09/lastrowid/select-back", f"ids selected back {back!r}, expected {expected_ids!r} (raw {raw_back!r})", observed=repr(back), expected=repr(expected_ids))
+    finally:
+        reg.dispose()
+        eng.dispose()
+    ctx.note(case, True, classes=["pk=" + m for m in sorted(set(modes))] + ["implicit_returning=" + str(case["table_implicit_returning"]), "envelope=" + case["envelope"], "composite" if composite else "single"])
+    if fail is not None:
+        raise fail
+
+
 def subs(tier):
     return [
         Generated("roundtrip", check_roundtrip, strategy=roundtrip_cases(), quick=7000, thorough=200000),
         Generated("once", check_once, strategy=once_cases(), quick=6000, thorough=160000),
         Generated("procs", check_procs, strategy=proc_cases(), quick=4000, thorough=100000),
+        Generated("lastrowid", check_lastrowid, strategy=lastrowid_cases, quick=2500, thorough=60000),
     ]
